@@ -4,6 +4,7 @@
 //	ops:  inc <s> <n>                       -> <result>
 //	      reset                             -> ok            (fresh producer id)
 //	      push <epoch> <first> <n>          -> accept <off> | dup <off> | reject | err <code>
+//	      scen <start> <pausems> <lingerms> <maxbatchbytes> <brokers> <step>...  -> history (scen.go)
 package main
 
 import (
@@ -105,6 +106,7 @@ func gen(a hx.Args) {
 			}
 		}
 	}
+	genScen(a, r)
 }
 
 type impl struct {
@@ -195,14 +197,14 @@ func (im *impl) hwm() int64 {
 
 func run() {
 	var im *impl
-	hx.RunLines(20*time.Second, func(t []string) (res string) {
+	hx.RunLines(90*time.Second, func(t []string) (res string) {
 		defer func() {
 			if t[0] == "inc" {
 				hx.St.Inc("op.inc")
 			} else {
-				hx.St.Inc("op." + t[0] + "." + strings.Fields(res + " ?")[0])
+				hx.St.Inc("op." + t[0] + "." + strings.SplitN(strings.Fields(res + " ?")[0], ":", 2)[0])
 			}
-			if t[0] != "reset" && len(t) == 4 || t[0] == "inc" {
+			if t[0] == "push" && len(t) == 4 || t[0] == "inc" {
 				if a, b := hx.Atoi(t[len(t)-2]), hx.Atoi(t[len(t)-1]); a+b >= M {
 					hx.St.Inc("wraps." + t[0])
 				}
@@ -228,6 +230,8 @@ func run() {
 				return fmt.Sprintf("dup %d", off)
 			}
 			return res
+		case "scen":
+			return runScen(t)
 		}
 		return "bad-op"
 	})
